@@ -329,6 +329,61 @@ pub fn response(answers: &[RecDesc], additionals: &[RecDesc]) -> String {
     hex(&pk)
 }
 
+/// A response packet written by hand (no compression), for record kinds the crate's own
+/// encoder does not write in wire format (`DnsNSec::write` emits the next name as text and the
+/// bitmap without its block header - the crate never sends NSEC itself). `bitmap` of an NSEC
+/// description is the bitmap DATA; block number 0 and the length byte are added here.
+pub fn raw_response(answers: &[RecDesc], additionals: &[RecDesc]) -> String {
+    fn name(p: &mut Vec<u8>, n: &str) {
+        for l in mdns_sd::verif::parser::parse_escaped_name(n.strip_suffix('.').unwrap_or(n)) {
+            let b = l.as_bytes();
+            p.push(b.len().min(63) as u8);
+            p.extend_from_slice(&b[..b.len().min(63)]);
+        }
+        p.push(0);
+    }
+    let mut p: Vec<u8> = vec![0, 0, 0x84, 0, 0, 0];
+    p.extend_from_slice(&(answers.len() as u16).to_be_bytes());
+    p.extend_from_slice(&[0, 0]);
+    p.extend_from_slice(&(additionals.len() as u16).to_be_bytes());
+    for r in answers.iter().chain(additionals.iter()) {
+        name(&mut p, &r.name);
+        p.extend_from_slice(&r.ty.to_be_bytes());
+        p.extend_from_slice(&r.class.to_be_bytes());
+        p.extend_from_slice(&r.ttl.to_be_bytes());
+        let mut rd: Vec<u8> = vec![];
+        match &r.rdata {
+            RDataView::Addr { ip, .. } => match ip {
+                std::net::IpAddr::V4(a) => rd.extend_from_slice(&a.octets()),
+                std::net::IpAddr::V6(a) => rd.extend_from_slice(&a.octets()),
+            },
+            RDataView::Ptr(n) => name(&mut rd, n),
+            RDataView::Srv { priority, weight, port, host } => {
+                rd.extend_from_slice(&priority.to_be_bytes());
+                rd.extend_from_slice(&weight.to_be_bytes());
+                rd.extend_from_slice(&port.to_be_bytes());
+                name(&mut rd, host);
+            }
+            RDataView::Txt(t) => rd.extend_from_slice(t),
+            RDataView::Hinfo { cpu, os } => {
+                rd.push(cpu.len() as u8);
+                rd.extend_from_slice(cpu.as_bytes());
+                rd.push(os.len() as u8);
+                rd.extend_from_slice(os.as_bytes());
+            }
+            RDataView::Nsec { next, bitmap } => {
+                name(&mut rd, next);
+                rd.push(0);
+                rd.push(bitmap.len() as u8);
+                rd.extend_from_slice(bitmap);
+            }
+        }
+        p.extend_from_slice(&(rd.len() as u16).to_be_bytes());
+        p.extend(rd);
+    }
+    hex(&p)
+}
+
 const TTL_POOL: &[u32] = &[1, 2, 3, 5, 10, 10, 120, 4500];
 
 fn inject(hexpkt: &str) -> String {
